@@ -1525,7 +1525,29 @@ func isAppendOfParamCtx(v ssa.Value, fn *ssa.Function) bool {
 		return false
 	}
 	p, ok := origin(call.Call.Args[0]).(*ssa.Parameter)
-	return ok && p.Parent() == fn
+	if ok && p.Parent() == fn {
+		return true
+	}
+	// the append lives in a helper shared by the opening paths: then the helper's parameter must receive fn's ctx parameter
+	if ok && p.Parent() == call.Parent() && call.Parent() != fn {
+		h := call.Parent()
+		good := false
+		allInstrsLocal(fn, func(in ssa.Instruction) {
+			hc, isC := in.(*ssa.Call)
+			if !isC || staticCallee(hc) != h {
+				return
+			}
+			for i, hp := range h.Params {
+				if hp == p && i < len(hc.Call.Args) {
+					if fp, isP := origin(hc.Call.Args[i]).(*ssa.Parameter); isP && fp.Parent() == fn {
+						good = true
+					}
+				}
+			}
+		})
+		return good
+	}
+	return false
 }
 
 // publishedByOnce: every write of the field is inside a function literal passed directly to Do of ONE sync.Once field,
